@@ -188,8 +188,13 @@ def module_source(program, mi):
                 args.append('dtype=' + {'Path': '_Path', 'int': 'int', 'str': 'str', 'list': 'list', 'dict': 'dict',
                                        'float': 'float', 'bool': 'bool'}[p['dtype']])
             if 'default' in p:
-                args.append(f'default=_Path({p["default"]["v"]!r})' if p['default'].get('as_path')
-                            else f'default={p["default"]["v"]!r}')
+                if p['default'].get('as_object'):
+                    dv = p['default']['v']
+                    ea = ', '.join([repr(a) for a in dv.get('args', [])] + [f'{k}={v!r}' for k, v in dv.get('kwargs', {}).items()])
+                    args.append(f'default=_objs.{dv["__object__"]}({ea})')
+                else:
+                    args.append(f'default=_Path({p["default"]["v"]!r})' if p['default'].get('as_path')
+                                else f'default={p["default"]["v"]!r}')
             if p.get('cfg'):
                 args.append(f'name_in_config={p["cfg"]!r}')
             if p.get('ignore'):
